@@ -49,6 +49,7 @@ MIN_COUNTERS = {
               'mt_histories': 500, 'mt_concurrent_next_calls': 5000,
               'fault_cases': 40, 'fault_release_attempts_that_raised': 20,
               'pause_resume_cases': 300, 'cond_race_cases': 100,
+              'cond_control_test/const-then-callable': 40, 'cond_control_test/callable-then-const': 40,
               'restart_histories': 800, 'restart_function_restarts_compared': 500,
               'restart_histories_reset_pause_resume': 100,
               'restart_histories_meter_change_inside': 100},
@@ -1133,7 +1134,21 @@ def run_cond_ctl(spec, acc):
         ops.append('resume')            # a paused waiter is let go at the end
         how_rel = rng.choice(['signal', 'unhang']) if not use_flow else 'value'
         flag = [False]
-        cond = stm.Condition(lambda: flag[0])
+        # the test is given to the constructor or set afterwards, a callable or a
+        # constant (documented: "test: a boolean or a callable"), in every order
+        test_style = rng.choice(['ctor-callable', 'ctor-callable', 'const-then-callable',
+                                 'callable-then-const', 'const-only'])
+        const_test = test_style in ('callable-then-const', 'const-only')
+        if test_style == 'ctor-callable':
+            cond = stm.Condition(lambda: flag[0])
+        elif test_style == 'const-then-callable':
+            cond = stm.Condition(False)
+            cond.test = lambda: flag[0]
+        elif test_style == 'callable-then-const':
+            cond = stm.Condition(lambda: flag[0])
+            cond.test = False
+        else:
+            cond = stm.Condition(False)
         fv = stm.FlowVar()
         log = []
         box = {}
@@ -1187,6 +1202,8 @@ def run_cond_ctl(spec, acc):
                             else:
                                 if how_rel == 'signal':
                                     flag[0] = True
+                                    if const_test:
+                                        cond.test = True
                                 getattr(cond, how_rel)()
                         log.append(('op', op, 'ok'))
                     except Exception as e:      # noqa (refusals are legal answers)
@@ -1202,6 +1219,8 @@ def run_cond_ctl(spec, acc):
                           {'case': i, 'ops': ops, 'tb': short_tb(e)})
             continue
         acc.count('cond_control_cases')
+        if not use_flow:
+            acc.count('cond_control_test/' + test_style)
         if use_flow:
             acc.count('cond_control_flowvar_value/' + fv_kind)
         acc.count('cond_control_ops', len(ops))
